@@ -231,7 +231,28 @@ func newReq(k cache.FailureQuestionKey) *dns.Msg {
 	return m
 }
 
+// exec runs one op and tags it for the evidence's input distribution.
 func exec(op string) vlib.Res {
+	res := execOp(op)
+	f := strings.Fields(op)
+	if len(f) >= 2 {
+		tags := []string{"op=" + f[1]}
+		switch first, _, _ := strings.Cut(res.Impl, " "); first {
+		case "q", "z", "miss", "hit", "none", "nocache":
+			tags = append(tags, "res="+first)
+		}
+		if strings.Contains(op, " t 4:") || strings.Contains(op, " f 4:") || strings.Contains(op, " t 6:") || strings.Contains(op, " f 6:") {
+			tags = append(tags, "ecs")
+		}
+		if res.Tags != "" {
+			tags = append(tags, res.Tags)
+		}
+		res.Tags = strings.Join(tags, ",")
+	}
+	return res
+}
+
+func execOp(op string) vlib.Res {
 	f := strings.Fields(op)
 	if len(f) < 2 || f[0] != "fail" {
 		return vlib.Res{Impl: "bad-op"}
@@ -434,9 +455,27 @@ func exec(op string) vlib.Res {
 		if a[5] == "t" {
 			req.SetEdns0(1232, true)
 		}
-		resp, ok := st2.Get(req)
+		// the request tree a resolver-private sub-query (DS/DNSKEY walk) runs in
+		ctx := context.Background()
+		if len(a) > 6 {
+			switch a[6] {
+			case "ecsctx":
+				ctx = middleware.MarkClientECS(ctx)
+			case "ecsopt":
+				if req.IsEdns0() == nil {
+					req.SetEdns0(1232, false)
+				}
+				req.IsEdns0().Option = append(req.IsEdns0().Option, ecsOption(netip.MustParsePrefix("203.0.113.0/24"), 0))
+			}
+		}
+		resp, ok := st2.GetWithContext(ctx, req)
 		if !ok {
-			return vlib.Res{Impl: "miss", Oracle: "ok"}
+			or := "ok"
+			if _, active := fc.Lookup(k); active && enabled {
+				// a miss here starts a resolution: upstream traffic during the backoff
+				or = "FAIL sig=sget/active-failure-not-served-to-sub-query tree=" + strings.Join(a[6:], "")
+			}
+			return vlib.Res{Impl: "miss", Oracle: or, Tags: "nt"}
 		}
 		or := judgeResponse(req, resp, "sget")
 		if !enabled {
@@ -475,6 +514,8 @@ func exec(op string) vlib.Res {
 		return vlib.Res{Impl: fmt.Sprintf("len=%d", fc.Len()), Oracle: or}
 	case "sset": // <name> <type> <class> <keycd> <scope> <class: useful|servfail|other> <now>
 		return execSet(a)
+	case "probe": // <now> <n> then n × <q key 5>
+		return execProbe(a)
 	case "eserve": // <q key 5 (scope = the client's ECS source prefix)> <now> <outcome> <response SCOPE bits>
 		return execServeECS(a)
 	case "alias": // <name> <class> <cd> <opt t/f> <now> <target outcome>
@@ -501,9 +542,6 @@ func worst(a, b string) string {
 }
 
 func execNew(a []string) vlib.Res {
-	if fc != nil {
-		fc.Stop()
-	}
 	if full != nil {
 		full.Stop()
 	}
@@ -511,10 +549,36 @@ func execNew(a []string) vlib.Res {
 	size := vlib.Atoi(a[0])
 	mn, mx := vlib.AtoI64(a[1]), vlib.AtoI64(a[2])
 	enabled = a[3] == "t"
+	expire := 600
+	if len(a) > 4 {
+		expire = vlib.Atoi(a[4])
+	}
 	nowNS = 0
 	ref = newRef()
+	// the cache exactly as the server builds it from the configuration; every
+	// op of the case runs on the failure cache Cache.New derived from it
+	en := enabled
+	cfg := &config.Config{CacheSize: 1024, RFC9520: &en, Expire: uint32(expire)}
+	cfg.RecursionFirewall.FailureCacheSize = size
+	cfg.RecursionFirewall.FailureCacheMinTTL.Duration = time.Duration(mn)
+	cfg.RecursionFirewall.FailureCacheMaxTTL.Duration = time.Duration(mx)
+	cfg.ECS = config.ECSConfig{Enabled: true, ForwardV4Max: 24, ForwardV6Max: 56, MinScopeV4: 24, MinScopeV6: 56}
+	full = cache.New(cfg)
+	built := cache.VerifC13FailureOf(full)
+	cache.VerifC13SetNow(built, clock)
+	bmin, bmax := cache.VerifC13TTLs(built)
+	builtS := fmt.Sprintf(" cache=%d/%d", int64(bmin), int64(bmax))
+	st = cache.VerifC13StoreOf(full)
+	or := "ok"
+	switch {
+	case int64(bmax) > int64(5*time.Minute) || int64(bmin) < int64(time.Second) || bmin > bmax:
+		or = fmt.Sprintf("FAIL sig=new/cache-bounds-outside-limits min=%d max=%d", int64(bmin), int64(bmax))
+	case cache.VerifC13Disabled(st) == enabled:
+		or = "FAIL sig=new/rfc9520-switch-not-wired"
+	}
+	// the same setting handed to NewFailureCache directly: what the property
+	// text allows as a configuration
 	c, err := cache.NewFailureCache(cache.FailureCacheConfig{Size: size, InitialTTL: time.Duration(mn), MaxTTL: time.Duration(mx), Now: clock})
-	// oracle: what the property text allows as a configuration
 	effMin, effMax := mn, mx
 	if effMin == 0 {
 		effMin = int64(5 * time.Second)
@@ -534,10 +598,10 @@ func execNew(a []string) vlib.Res {
 		case strings.Contains(err.Error(), "five minutes"):
 			code = "ceiling"
 		}
-		return vlib.Res{Impl: "err=" + code, Oracle: "ok"}
+		return vlib.Res{Impl: "err=" + code + builtS, Oracle: or}
 	}
 	gmin, gmax := cache.VerifC13TTLs(c)
-	or := "ok"
+	c.Stop()
 	switch {
 	case int64(gmax) > int64(5*time.Minute):
 		or = fmt.Sprintf("FAIL sig=new/max-above-ceiling max=%d", int64(gmax))
@@ -545,27 +609,19 @@ func execNew(a []string) vlib.Res {
 		or = "FAIL sig=new/min-above-max"
 	case int64(gmin) != effMin || int64(gmax) != effMax:
 		or = fmt.Sprintf("FAIL sig=new/bounds-differ-from-config min=%d max=%d", int64(gmin), int64(gmax))
+	case bmin != gmin || bmax != gmax:
+		// a valid operator setting must be what the server's cache runs with,
+		// whatever the unrelated settings (expire, cache size, ...) are
+		or = fmt.Sprintf("FAIL sig=new/cache-built-from-config-ignores-valid-bounds configured=%d/%d built=%d/%d expire=%d", int64(gmin), int64(gmax), int64(bmin), int64(bmax), expire)
 	}
-	fc = c
+	fc = built
 	cfgMin, cfgMax = int64(gmin), int64(gmax)
-	en := enabled
-	cfg := &config.Config{CacheSize: 1024, RFC9520: &en}
-	cfg.RecursionFirewall.FailureCacheSize = size
-	cfg.RecursionFirewall.FailureCacheMinTTL.Duration = gmin
-	cfg.RecursionFirewall.FailureCacheMaxTTL.Duration = gmax
-	cfg.ECS = config.ECSConfig{Enabled: true, ForwardV4Max: 24, ForwardV6Max: 56, MinScopeV4: 24, MinScopeV6: 56}
-	full = cache.New(cfg)
-	cache.VerifC13UseFailureCache(full, fc)
-	st = cache.VerifC13StoreOf(full)
 	st2 = cache.NewStore(cache.NewPositiveCache(16, time.Second, time.Hour, &cache.CacheMetrics{}), cache.NewNegativeCache(16, time.Second, time.Hour, &cache.CacheMetrics{}), cache.CacheConfig{Size: 16}, fc)
 	cache.VerifC13SetDisabled(st2, !enabled)
-	if cache.VerifC13Disabled(st) == enabled {
-		or = "FAIL sig=new/rfc9520-switch-not-wired"
-	}
-	if o := oracleBackoffSweep(fc, cfgMin, cfgMax); o != "ok" {
+	if o := oracleBackoffSweep(fc, cfgMin, cfgMax); o != "ok" && or == "ok" {
 		or = o
 	}
-	return vlib.Res{Impl: fmt.Sprintf("ok %d %d", int64(gmin), int64(gmax)), Oracle: or}
+	return vlib.Res{Impl: fmt.Sprintf("ok %d %d", int64(gmin), int64(gmax)) + builtS, Oracle: or}
 }
 
 // retry keys are raw 64-bit hashes: canonicalise to WHICH retained state the
